@@ -11,6 +11,7 @@ pub mod h_graph;
 pub mod h_panic;
 pub mod h_fin;
 pub mod h_api;
+pub mod h_count;
 #[cfg(feature = "weak-ptrs")]
 pub mod h_cyclic;
 #[cfg(feature = "weak-ptrs")]
